@@ -107,15 +107,42 @@ func (fa facts) kill(key string) {
 	if key == "" {
 		return
 	}
-	for k := range fa {
+	for k, v := range fa {
 		if k == key || strings.HasPrefix(k, key+".") {
+			delete(fa, k)
+		}
+		// an alias whose defining expression reads key no longer equals that expression
+		if strings.HasPrefix(k, "alias:") && (containsWord(v, key) || strings.Contains(v, key+".")) {
 			delete(fa, k)
 		}
 	}
 }
 
+// staleAlias: e contains an expression that replaced an alias variable (canon.go) whose defining
+// expression may have changed value since the definition on this path.
+func (fa facts) staleAlias(e ast.Expr) bool {
+	if e == nil || len(substOrigin) == 0 {
+		return false
+	}
+	stale := false
+	ast.Inspect(e, func(n ast.Node) bool {
+		if x, ok := n.(ast.Expr); ok {
+			if id, ok := substOrigin[x]; ok {
+				if _, live := fa["alias:"+id.Name]; !live {
+					stale = true
+				}
+			}
+		}
+		return !stale
+	})
+	return stale
+}
+
 // killConds forgets memoised conditions that mention name.
 func (fa facts) killConds(name string) {
+	if name == "" {
+		return
+	}
 	for k := range fa {
 		if strings.HasPrefix(k, "cond:") && containsWord(k[5:], name) {
 			delete(fa, k)
@@ -165,7 +192,7 @@ func pureCond(e ast.Expr) bool {
 
 func (fa facts) killFields() {
 	for k := range fa {
-		if strings.Contains(k, ".") && !strings.HasPrefix(k, "cond:") {
+		if strings.Contains(k, ".") && !strings.HasPrefix(k, "cond:") && !strings.HasPrefix(k, "alias:") {
 			delete(fa, k)
 		}
 	}
@@ -253,6 +280,11 @@ func (fa facts) apply(info *types.Info, e Event) bool {
 			}
 			fa.kill(k)
 			fa.killConds(k)
+			if len(e.Rhs) == len(e.Lhs) && e.Tok == token.DEFINE {
+				if id, ok := l.(*ast.Ident); ok && aliasVars[info.Defs[id]] && !fa.staleAlias(e.Rhs[i]) {
+					fa["alias:"+k] = ExprStr(e.Rhs[i])
+				}
+			}
 			if len(e.Rhs) == len(e.Lhs) && (e.Tok == token.ASSIGN || e.Tok == token.DEFINE) {
 				if v := absValue(info, e.Rhs[i]); v != "" && !isVolatile(k) {
 					fa[k] = v
@@ -298,7 +330,8 @@ func (fa facts) apply(info *types.Info, e Event) bool {
 			fa.killConds(chainKey(rs.Key))
 			fa.kill(chainKey(rs.Value))
 			fa.killConds(chainKey(rs.Value))
-			ck := "rangecount:" + strconv.Itoa(int(rs.Pos()))
+			ck := "rangecount:" + strconv.Itoa(nodeID(rs))
+
 			n := 0
 			if cur, ok := fa[ck]; ok {
 				n, _ = strconv.Atoi(cur)
@@ -336,6 +369,12 @@ func (fa facts) apply(info *types.Info, e Event) bool {
 	case EvBranch:
 		if e.Cond == nil {
 			return true
+		}
+		if fa.staleAlias(e.Cond) || fa.staleAlias(e.Tag) {
+			return true
+		}
+		if e.CondVal != nil && e.Tag == nil {
+			return fa.assumeCond(info, e.CondVal, e.Taken)
 		}
 		if e.Tag != nil {
 			// switch tag == case value
@@ -417,6 +456,9 @@ func (fa facts) memo(cond ast.Expr, truth bool) bool {
 
 func (fa facts) assumeCond(info *types.Info, cond ast.Expr, truth bool) bool {
 	cond = ast.Unparen(cond)
+	if tv, ok := info.Types[cond]; ok && tv.Value != nil && tv.Value.Kind() == constant.Bool {
+		return constant.BoolVal(tv.Value) == truth
+	}
 	switch x := cond.(type) {
 	case *ast.UnaryExpr:
 		if x.Op == token.NOT {
@@ -496,4 +538,16 @@ func (fa facts) assumeCond(info *types.Info, cond ast.Expr, truth bool) bool {
 		return fa.assume(k, v, true)
 	}
 	return true
+}
+
+// nodeID numbers syntax nodes by identity (two copies of one loop are different loops).
+var nodeIDs = map[ast.Node]int{}
+
+func nodeID(n ast.Node) int {
+	id, ok := nodeIDs[n]
+	if !ok {
+		id = len(nodeIDs) + 1
+		nodeIDs[n] = id
+	}
+	return id
 }
